@@ -95,7 +95,7 @@ Definition alloc_proportional (v : N) (bs : list N) : Prop := read_alloc v bs <=
 Theorem alloc_proportional_refuted : exists v bs, ~ alloc_proportional v bs.
 Proof. exists 4, [48; 255; 255; 255; 127]. unfold alloc_proportional. vm_compute. intro H. apply H. reflexivity. Qed.
 Theorem alloc_proportional_partial : forall v bs,
-  kf_alloc_upfront v bs = false -> model_stream_alloc 4 v bs <= 64 * len bs + 4096.
+  kf_alloc_upfront v bs = false -> model_stream_alloc 4 v bs <= len bs.
 Proof. intros v bs H. unfold kf_alloc_upfront in H. lia. Qed.
 
 (* ---------------------------------------------------------------- TotalBytes *)
